@@ -9,8 +9,8 @@
    (vplib/props/c12.py), not by these theorems; panic sites outside the modelled functions are counted, not proved. *)
 From Coq Require Import List ZArith NArith Bool Arith.
 From PV Require Import Lib.ListX Model.Checked Model.RangeArith Model.WidthArith Model.ReviewedSites Model.Span
-  Model.CheckedNest Model.SitesBaseline Model.Closure Model.ParseRetry
-  Proofs.ClosureProofs Proofs.ParseRetryProofs Gen.GenUnpack
+  Model.CheckedNest Model.SitesBaseline Model.Closure Model.ParseRetry Model.Rq Model.RqWf
+  Proofs.ClosureProofs Proofs.ParseRetryProofs Proofs.RqWfProofs Gen.GenUnpack
   Proofs.CheckedProofs Proofs.RangeArithProofs Proofs.WidthArithProofs Proofs.ReviewedSitesProofs Proofs.SpanProofs
   Proofs.CheckedNestProofs Gen.GenSites.
 Import ListNotations.
@@ -309,6 +309,17 @@ Theorem c12_parse_linear_refuted : forall a b, exists n, a * n + b < calls n.
 Proof. exact calls_not_linear. Qed.
 Print Assumptions c12_parse_linear_refuted.
 
+(* ------------------------------------------------------------------ RQ from JSON: finding C12-N3 as a precondition *)
+(* rq_to_sql does not validate the RQ it is given (finding C12-N3).  C16 owns the well-formedness predicate of an RQ
+   (Model/RqWf.v, imported read-only) and its consequence: every id the back end looks up is declared, exactly once.
+   Restated here because it is the PRECONDITION that turns N3 into a statement about inputs: the check classifies a
+   panic on a mutated RQ document as N3 only if the document is NOT rq_wf_lax (evaluated by C16's mirror
+   vplib/props/c16_wf.py, which C16 cross-validates against this definition on every run); a panic on a document that
+   satisfies it is a VIOLATION (or the narrower finding C12-N16: an operator name without the `std.` prefix). *)
+Theorem c12_rq_lookups_total_under_wf : forall q, rq_wf_lax q = true -> lookups_total q.
+Proof. exact wf_lax_lookups_total. Qed.
+Print Assumptions c12_rq_lookups_total_under_wf.
+
 (* ------------------------------------------------------------------ nesting is unbounded in the input size *)
 Theorem c12_unbounded_depth : forall d, length (nest d) = 2 * d + 1 /\ bracket_depth (nest d) = d.
 Proof. exact unbounded_depth_lemma. Qed.
@@ -363,4 +374,10 @@ Example c12_ex_unpack_direct :
 Proof. repeat split; vm_compute; reflexivity. Qed.
 (* `f x:(f x:(1))`: 7 invocations of nested_expr for 11 tokens; the parser does accept the input *)
 Example c12_ex_parse_retry : p 40 NNested (nested_named 2) = (Some [], 7) /\ length (nested_named 2) = 11.
+Proof. split; vm_compute; reflexivity. Qed.
+(* the recorded witness of C12-N3 (no table, an empty pipeline) and a dangling sort key do not satisfy the precondition *)
+Example c12_ex_n3_not_wf :
+  rq_wf_lax (mkRq [] (mkRel (KPipeline []) [])) = false /\
+  rq_wf_lax (mkRq [(mkTable 0 None (mkRel (KExternRef [[116]]) [RWildcard]))]
+     (mkRel (KPipeline [(TFrom (mkTRef 0 [(RWildcard, 0)] (Some [116]))); (TTake (None, (Some ELit)) [] [(Asc, 77)]); (TSelect [0])]) [RWildcard]))%N = false.
 Proof. split; vm_compute; reflexivity. Qed.
